@@ -3,6 +3,7 @@ package stk
 import (
 	"bytes"
 	"context"
+	"crypto/ed25519"
 	"errors"
 	"fmt"
 	"hash/fnv"
@@ -18,6 +19,7 @@ import (
 	"go.brendoncarroll.net/p2p/f/x509"
 	"go.brendoncarroll.net/p2p/s/memswarm"
 
+	"golang.org/x/crypto/ssh"
 	"verifsim/simcore"
 )
 
@@ -76,6 +78,7 @@ type tbWorld struct {
 	closed   []bool // Close has returned on node i
 	lossy    bool
 	addrSeen map[string]bool
+	atk      map[string]string // payload sent by the SSH authentication attacker -> fingerprint of the only key it holds
 }
 
 func (w *tbWorld) violate(class, format string, args ...any) *simcore.Violation {
@@ -275,6 +278,27 @@ func RunTierB(prop string, st *simcore.Stream, tier, leg string, logOn bool, res
 					copy(b, []byte("SSH-2.0-x\r\n"))
 				}
 				return b
+			}
+			if spec == "ssh" && to != closedNode && st.Bool(1, 2) {
+				// a peer with its own key which interleaves the steps of public-key authentication and names node from's key
+				seed := make([]byte, 32)
+				st.Bytes(seed)
+				payload := make([]byte, 40)
+				st.Bytes(payload)
+				copy(payload, fmt.Sprintf("ssh-attacker %d:", id))
+				victim := ed25519.NewKeyFromSeed(w0.Keys[from].Data[:32]).Public().(ed25519.PublicKey)
+				order, ask := st.Intn(4), st.Bool(1, 3)
+				a, _ := ssh.NewSignerFromKey(ed25519.NewKeyFromSeed(seed))
+				w.mu.Lock()
+				if w.atk == nil {
+					w.atk = map[string]string{}
+				}
+				w.atk[string(payload)] = ssh.FingerprintSHA256(a.PublicKey())
+				w.mu.Unlock()
+				if _, sent := sshAuthAttack(hostport, victim, seed, order, payload, ask); sent {
+					res.Fault("ssh-auth-steps-interleaved")
+				}
+				continue
 			}
 			if strings.HasSuffix(spec, "ssh") {
 				if c, err := net.DialTimeout("tcp", hostport, time.Second); err == nil {
@@ -712,6 +736,9 @@ func (w *tbWorld) onTell(ep Endpoint, m Msg) {
 	if t == nil && bytes.HasPrefix(m.Payload, []byte("wake-up for the stuck receiver")) {
 		return
 	}
+	if w.attackerSource(at, m) {
+		return
+	}
 	if t == nil {
 		w.violate("payload-not-told", "node %d received %d bytes that nobody passed to Tell (%q...)", at, len(m.Payload), trunc24(m.Payload))
 		return
@@ -731,6 +758,20 @@ func (w *tbWorld) onTell(ep Endpoint, m Msg) {
 	if !bytes.Equal(snap, m.Payload) {
 		w.violate("buffer-changed-in-callback", "the message changed while the callback was running")
 	}
+}
+
+// attackerSource: a message of the SSH authentication attacker may be delivered (it is a peer with a key
+// of its own), but only under the identity of the key it proved it holds.
+func (w *tbWorld) attackerSource(at int, m Msg) bool {
+	fp, ok := w.atk[string(m.Payload)]
+	if !ok {
+		return false
+	}
+	w.res.Probe("attacker-message-arrived")
+	if i := strings.Index(m.Src, "@"); i < 0 || m.Src[:i] != fp {
+		w.violate("wrong-source-identity", "node %d: a message of a peer that proved possession of key %s only, after offering another node's public key during authentication, arrived with Src=%q", at, fp, m.Src).With("sender", "ssh-auth-attacker")
+	}
+	return true
 }
 
 // checkSource: Src is the address the receiver uses for the sender, and the key
@@ -795,6 +836,9 @@ func (w *tbWorld) onAsk(ep Endpoint, resp []byte, m Msg) int {
 	res.Probe("delivered")
 	if w.closed[at] {
 		w.violate("delivery-after-close", "node %d's ServeAsk callback was handed a request after Close had returned", at)
+	}
+	if w.attackerSource(at, m) {
+		return 0
 	}
 	a := w.asks[string(m.Payload)]
 	if a == nil {
